@@ -113,6 +113,129 @@ func serveWithTimeout(grpc bool, header string) (status int, code string, probe 
 // middleware's context.WithTimeout, http.Server.BaseContext). The handler's deadline is then
 // the EARLIER of the two: a peer's timeout is honoured also when the server's budget is longer,
 // and the server's budget is kept when the peer's timeout is longer or absent.
+// lateSendProbes (F20): a streaming call is created under a deadline, and its request goes out
+// later - with the first Send or CloseRequest. The timeout the peer is told must be the time
+// remaining *then*: a header computed when the call was created extends the handler's deadline
+// by however long the caller took. The answer is compared with the model as a verdict
+// ("not-longer" / "longer"): the exact value depends on the clock.
+//
+//	tlate proto=P kind=client|bidi first=send|close dl=MS wait=MS -> not-longer | longer:...
+func lateSendProbes(c *Ctx) {
+	type seen struct {
+		hdr       string
+		has       bool
+		remaining time.Duration
+	}
+	for _, proto := range []string{"connect", "grpc", "grpcweb"} {
+		for _, kind := range []string{"client", "bidi"} {
+			for _, first := range []string{"send", "close"} {
+				for _, tc := range []struct{ dl, wait time.Duration }{{1500 * time.Millisecond, 400 * time.Millisecond}, {time.Hour, 300 * time.Millisecond}} {
+					proto, kind, first, tc := proto, kind, first, tc
+					op := fmt.Sprintf("tlate proto=%s kind=%s first=%s dl=%d wait=%d", proto, kind, first, tc.dl.Milliseconds(), tc.wait.Milliseconds())
+					c.Begin(op)
+					got := make(chan seen, 1)
+					observe := func(ctx context.Context, h http.Header) {
+						d, ok := ctx.Deadline()
+						got <- seen{h.Get("Connect-Timeout-Ms") + h.Get("Grpc-Timeout"), ok, time.Until(d)}
+					}
+					var h http.Handler
+					if kind == "client" {
+						h = connect.NewClientStreamHandler("/s/m", func(ctx context.Context, s *connect.ClientStream[emptypb.Empty]) (*connect.Response[emptypb.Empty], error) {
+							observe(ctx, s.RequestHeader())
+							for s.Receive() {
+							}
+							return connect.NewResponse(&emptypb.Empty{}), nil
+						})
+					} else {
+						h = connect.NewBidiStreamHandler("/s/m", func(ctx context.Context, s *connect.BidiStream[emptypb.Empty, emptypb.Empty]) error {
+							observe(ctx, s.RequestHeader())
+							for {
+								if _, err := s.Receive(); err != nil {
+									return nil
+								}
+							}
+						})
+					}
+					ans := safely(func() string {
+						srv := httptest.NewUnstartedServer(h)
+						srv.EnableHTTP2 = true
+						srv.StartTLS()
+						defer srv.Close()
+						cl := connect.NewClient[emptypb.Empty, emptypb.Empty](srv.Client(), srv.URL+"/s/m", protoOptsPB(proto)...)
+						ctx, cancel := context.WithTimeout(context.Background(), tc.dl)
+						defer cancel()
+						var send func() error
+						var closeReq func() error
+						var finish func()
+						if kind == "client" {
+							st := cl.CallClientStream(ctx)
+							send, closeReq = func() error { return st.Send(&emptypb.Empty{}) }, func() error { return nil }
+							finish = func() { _, _ = st.CloseAndReceive() }
+							if first == "close" {
+								send = func() error { return nil }
+							}
+						} else {
+							st := cl.CallBidiStream(ctx)
+							send, closeReq = func() error { return st.Send(&emptypb.Empty{}) }, st.CloseRequest
+							finish = func() { _ = st.CloseRequest(); _, _ = st.Receive(); _ = st.CloseResponse() }
+							if first == "close" {
+								send = func() error { return nil }
+							}
+						}
+						time.Sleep(tc.wait)
+						deadline, _ := ctx.Deadline()
+						remainingAtSend := time.Until(deadline) // measured before the request can go out
+						if err := send(); err != nil {
+							return "send: " + err.Error()
+						}
+						if first == "close" {
+							if err := closeReq(); err != nil {
+								return "close: " + err.Error()
+							}
+						}
+						var s seen
+						if kind == "client" && first == "close" {
+							// CloseAndReceive is what sends the request
+							done := make(chan struct{})
+							go func() { finish(); close(done) }()
+							select {
+							case s = <-got:
+							case <-time.After(10 * time.Second):
+								return "handler never ran"
+							}
+							<-done
+						} else {
+							select {
+							case s = <-got:
+							case <-time.After(10 * time.Second):
+								return "handler never ran"
+							}
+							finish()
+						}
+						if !s.has || s.hdr == "" {
+							return "no-deadline"
+						}
+						// the handler's remaining time, seen after the request travelled, can only be
+						// smaller than what the client had left when it sent; 50 ms of slack for clocks
+						if s.remaining > remainingAtSend+50*time.Millisecond {
+							return fmt.Sprintf("longer: header %s, handler has %v left, the client had %v left when the request went out", s.hdr, s.remaining.Round(time.Millisecond), remainingAtSend.Round(time.Millisecond))
+						}
+						return "not-longer"
+					})
+					c.Count("tmo-late-send:" + proto)
+					if ans != "not-longer" {
+						c.Fail("tmo-late-send", op, ans, "the timeout sent with a request that goes out some time after the call was created must not be longer than the time remaining when it goes out")
+					}
+					if strings.HasPrefix(ans, "longer") {
+						ans = "longer"
+					}
+					c.Emit(op, ans, true)
+				}
+			}
+		}
+	}
+}
+
 func serverBudgetProbes(c *Ctx) {
 	for _, proto := range []string{"connect", "grpc", "grpcweb"} {
 		for _, kind := range []string{"unary", "client"} {
@@ -520,6 +643,10 @@ func streamTimeout(c *Ctx) {
 			serverBudgetProbes(c)
 			return
 		}
+		if f[0] == "tlate" {
+			lateSendProbes(c)
+			return
+		}
 		if f[0] == "ctmo.enc" {
 			// re-probe with a deadline in the same range
 			hi, _ := strconv.ParseInt(f[2], 10, 64)
@@ -660,6 +787,7 @@ func streamTimeout(c *Ctx) {
 	}
 	timeoutReuseProbes(c)
 	serverBudgetProbes(c)
+	lateSendProbes(c)
 	contextShapeProbes(c)
 	for i := 0; i < 200; i++ {
 		d := time.Duration(r.U64() >> uint(1+r.Intn(50)))
